@@ -291,6 +291,8 @@ def getitem(I, obj, idx):
                 return _slist_slice(I, cell['len'], cell['arr'], cell['ek'], idx, obj.nd)
             if isinstance(idx, Ref) and obj.nd:
                 return fancy_index(I, obj, idx)
+            if isinstance(idx, tuple) and not obj.nd:
+                raise PyExc('TypeError', 'list indices must be integers or slices, not tuple')
             if numkind(idx) not in ('int', 'bool'):
                 raise Unsupported('index %r into symbolic list' % (idx,))
             i = norm_index(I, idx, cell['len'])
@@ -382,6 +384,22 @@ def setitem(I, obj, idx, v):
     st = I.st
     if isinstance(obj, Ref) and obj.kind in ('clist', 'slist') and obj.nd and _is_bool_mask(I, idx):
         return mask_assign(I, obj, idx, v)
+    if isinstance(obj, Ref) and obj.kind in ('clist', 'slist') and obj.nd and isinstance(idx, Ref) and idx.kind == 'clist' \
+            and all(isinstance(k, int) and not isinstance(k, bool) for k in st.heap[idx]):
+        # a[[i0, i1, ...]] = scalar | sequence of the same length   (numpy integer-array assignment, concrete indices):
+        # all indices are validated first (the assignment is atomic), then the elements are stored in order
+        ks = list(st.heap[idx])
+        vals = seq_items(I, v) if is_list(v) or isinstance(v, tuple) else None
+        if vals is not None and len(vals) != len(ks) and len(vals) != 1:
+            raise PyExc('ValueError', 'shape mismatch')
+        ln = list_len(I, obj)
+        for k in ks:
+            i = norm_index(I, k, zint(ln))
+            if not st.branch(z3.And(i >= 0, i < zint(ln))):
+                raise PyExc('IndexError', 'index out of bounds')
+        for n_, k in enumerate(ks):
+            setitem(I, obj, k, v if vals is None else vals[n_ if len(vals) > 1 else 0])
+        return
     if isinstance(obj, Ref):
         if obj.kind == 'clist':
             cell = st.heap[obj]
